@@ -7,8 +7,8 @@ These checks bind a stateless Go function to a TLA+ operator row by row:
                  <<"ROW_REJECTED", line, reason>> and keeps going; every rejected row is reported.
                  The file is split into parts validated by parallel TLC processes (-workers 1 each).
   * rows_num():  rows whose values exceed TLC's 32-bit integers are rendered as literal conjuncts over the
-                 same operator module and evaluated by Apalache (chunks of rows are separate invariants; the
-                 first FALSE row is named by Apalache, the rows behind it are re-run, up to a cap).
+                 same operator module and evaluated by Apalache (one verification condition per row; the first
+                 FALSE row is named by Apalache and confirmed alone, the rows behind it are re-run, up to a cap).
 Nothing here decides a verdict in Python: a row is good or bad because TLC / Apalache evaluated the TLA+ text.
 """
 import concurrent.futures
@@ -121,40 +121,44 @@ def failures_from(ctx, rejected, signature_fn, label, cap=5, only_base=0):
 
 
 # ----------------------------------------------------------------------------------------------- Apalache
-def _apalache_module(name, extends, chunks, prelude=""):
+def _apalache_module(name, extends, conj, prelude=""):
     t = ["---- MODULE %s ----" % name, "EXTENDS " + ", ".join(extends), "VARIABLE", "  \\* @type: Int;", "  dummy",
          prelude, "Init == dummy = 0", "Next == UNCHANGED dummy"]
-    for cname, conj in chunks:
-        # "(row) = TRUE" keeps Apalache from splitting a row into several verification conditions, so that the
-        # index in "state invariant K violated" is the index of the row (probed with Apalache 0.58)
-        t.append("%s ==\n  /\\ " % cname + "\n  /\\ ".join("(%s) = TRUE" % c for c in conj))
+    # One invariant holding every row.  Apalache splits the top-level conjunction into one verification condition
+    # per conjunct, in order; "(row) = TRUE" keeps it from splitting a row further, so the index in "state invariant
+    # K violated" is the index of the row.  (With several --inv names the conditions are interleaved across the
+    # invariants, which is why a single one is used - probed with Apalache 0.58.)
+    t.append("AllRows ==\n  /\\ " + "\n  /\\ ".join("(%s) = TRUE" % c for c in conj))
     t.append("====")
     return "\n".join(t) + "\n"
 
 
-def _apalache(ctx, name, extends, spec_files, chunks, label, timeout, prelude=""):
-    """Returns None when every row holds, else the flat index of the first row Apalache evaluated to FALSE."""
+def _apalache(ctx, name, extends, spec_files, conj, label, timeout, prelude=""):
+    """Returns None when every row holds, else the index of a row Apalache evaluated to FALSE."""
     d = ctx.sub("apa-" + label)
     for f in spec_files:
         shutil.copy(os.path.join(vlib.SPEC, f), d)
-    text = _apalache_module(name, extends, chunks, prelude)
-    ok, out = vlib.apalache_check(ctx, text, name, ",".join(c for c, _ in chunks), label=label, timeout=timeout)
-    nrows = sum(len(c) for _, c in chunks)
+    text = _apalache_module(name, extends, conj, prelude)
+    ok, out = vlib.apalache_check(ctx, text, name, "AllRows", label=label, timeout=timeout)
     m = re.search(r"Checking (\d+) state invariants", out)
-    if not m or int(m.group(1)) != nrows:
+    if not m or int(m.group(1)) != len(conj):
         raise vlib.Infra("apalache checked %s verification conditions for %d rows:\n%s"
-                         % (m.group(1) if m else "no", nrows, out[-1500:]))
+                         % (m.group(1) if m else "no", len(conj), out[-1500:]))
     if ok:
         return None
     m = re.search(r"state invariant (\d+) violated", out)
     if not m:
         raise vlib.Infra("apalache reported an error without naming the invariant:\n" + out[-2000:])
-    return int(m.group(1))
+    # Apalache 0.58 checks the verification conditions in the lexicographic order of their numbers
+    # (0, 1, 10, 11, ..., 19, 2, 20, ...): position K is row sorted(range(n), key=str)[K] (probed; every row named
+    # this way is confirmed alone by rows_num)
+    return sorted(range(len(conj)), key=str)[int(m.group(1))]
 
 
 def rows_num(ctx, extends, spec_files, rows, label, chunk=25, cap=2, timeout=900, procs=4, prelude=""):
     """rows = [(conjunct_text, row_obj)].  Returns list of row_objs whose conjunct Apalache evaluated to FALSE
-    (at most `cap` per process; the number of rows left unevaluated after reaching the cap is recorded)."""
+    (at most `cap` per process; the number of rows left unevaluated after reaching the cap is recorded).
+    Every row named as FALSE is confirmed by evaluating it alone."""
     if not rows:
         raise vlib.Infra("no rows for the num engine (%s)" % label)
     procs = max(1, min(procs, (len(rows) + chunk - 1) // chunk))
@@ -164,13 +168,16 @@ def rows_num(ctx, extends, spec_files, rows, label, chunk=25, cap=2, timeout=900
         mybad, done, pending, rnd = [], 0, list(groups[gi]), 0
         while pending:
             rnd += 1
-            named = [("Chunk%d" % i, [c for c, _ in pending[i:i + chunk]]) for i in range(0, len(pending), chunk)]
-            k = _apalache(ctx, "Rows", extends, spec_files, named, "%s-g%d-r%d" % (label, gi, rnd), timeout, prelude)
+            k = _apalache(ctx, "Rows", extends, spec_files, [c for c, _ in pending], "%s-g%d-r%d" % (label, gi, rnd),
+                          timeout, prelude)
             if k is None:
                 return mybad, done + len(pending), 0
+            if _apalache(ctx, "Rows", extends, spec_files, [pending[k][0]], "%s-g%d-r%d-confirm" % (label, gi, rnd),
+                         timeout, prelude) != 0:
+                raise vlib.Infra("apalache named row %d as violated but the row alone holds: %s" % (k, pending[k][0]))
             mybad.append(pending[k][1])
-            done += k + 1
-            pending = pending[k + 1:]
+            done += 1
+            pending = pending[:k] + pending[k + 1:]     # nothing is assumed about the other rows: all are re-run
             if len(mybad) >= cap:
                 return mybad, done, len(pending)
         return mybad, done, 0
